@@ -6,6 +6,7 @@ import (
 	"io"
 	"log"
 	"net"
+	"net/mail"
 	"strconv"
 	"strings"
 	"time"
@@ -785,34 +786,29 @@ func matchesSentDate(msg messageInfo, dateStr string, comparison string, userID 
 		return false
 	}
 
-	lines := strings.Split(rawMsg, "\n")
-	var dateHeader string
-
-	for _, line := range lines {
-		line = strings.TrimRight(line, "\r")
-		if line == "" {
-			break
-		}
-		if strings.HasPrefix(strings.ToUpper(line), "DATE:") {
-			colonIdx := strings.Index(line, ":")
-			if colonIdx != -1 {
-				dateHeader = strings.TrimSpace(line[colonIdx+1:])
-			}
-			break
-		}
+	// The first Date: field, unfolded
+	values := headerFieldValues(rawMsg, "Date")
+	if len(values) == 0 {
+		return false
 	}
+	dateHeader := strings.TrimSpace(values[0])
 
 	if dateHeader == "" {
 		return false
 	}
 
-	// Parse the Date: header (RFC 2822 format)
-	sentDate, err := time.Parse(time.RFC1123Z, dateHeader)
+	// Parse the Date: header: the RFC 5322 date-time forms (day of week and
+	// seconds optional, one- or two-digit day, numeric or obsolete zone,
+	// comments), then the stricter layouts tried so far
+	sentDate, err := mail.ParseDate(dateHeader)
 	if err != nil {
-		// Try RFC1123
-		sentDate, err = time.Parse(time.RFC1123, dateHeader)
+		sentDate, err = time.Parse(time.RFC1123Z, dateHeader)
 		if err != nil {
-			return false
+			// Try RFC1123
+			sentDate, err = time.Parse(time.RFC1123, dateHeader)
+			if err != nil {
+				return false
+			}
 		}
 	}
 
